@@ -518,7 +518,7 @@ pub fn run_case(out: &mut Out, rng: &mut Rng, thorough: bool, case_no: u64) {
     out.count_n("time_us:fresh-init", t3.elapsed().as_micros() as u64);
     can::verif_hooks::set_manual_mode(true);
     out.begin_case(&format!("sync thr={}", thr));
-    out.emit(&format!("c init regtest {} {}", thr, c::block_text(&st.case.world.nodes[0].block, network)), "-");
+    out.emit(&format!("c init regtest {} {} {}", thr, c::block_text(&st.case.world.nodes[0].block, network), c::block_hex(&st.case.world.nodes[0].block)), "-");
     if let Some(f) = &fees {
         out.emit(&format!("c setfees {}", fees_text(f)), "-");
     }
